@@ -108,9 +108,11 @@ def main():
         "engines": [
             {"name": "pbt-harness", "path": "/verif/harness", "serves_properties": sorted(CHECKS.keys()),
              "kind_free_text": "proptest-1.7 driven model-based runner (16 seeded worker threads, integrated shrinking, JSON replay files) executing contracts in the Soroban native test host with explicit authorization entries"},
+            {"name": "libfuzzer-passthrough", "path": "/verif/fuzz", "serves_properties": sorted(CHECKS.keys()),
+             "kind_free_text": "thorough tier only, supplement: one generic libFuzzer target (stable toolchain + sancov flags, libfuzzer-sys) whose bytes drive the same proptest strategies through the pass-through RNG (locally patched proptest copy in fuzz/vendor) and the same interpreters/oracles; can only add a violation"},
         ],
         "checks": checks,
-        "notes": "Exit codes: 0 held, 1 VIOLATION, 2 inconclusive (build failure, watchdog, starved generator). VERIF_SEED selects the PRNG stream. Known findings: /verif/KNOWN_FINDINGS.txt.",
+        "notes": "Exit codes: 0 held, 1 VIOLATION, 2 inconclusive (build failure, watchdog, starved generator). VERIF_SEED selects the PRNG stream (same seed => same cases). Known findings: /verif/KNOWN_FINDINGS.txt (six genuine defects were found and repaired by fix: commits in /repo; only `fixed:` lines remain). Sensitivity: selftest/run.sh (80 one-line mutants) and seeded/ (independently produced changes with demonstrations). DESIGN.md §9 is the implementation record.",
         "not_applicable": [{"property_id": p, "reason": PENDING_REASON} for p in ids if p not in CHECKS],
     }
     json.dump(m, open("/verif/MANIFEST.json", "w"), indent=1)
